@@ -8,6 +8,17 @@ Import ListNotations.
 Inductive bop := Add | Sub | Mul | Div.
 Inductive cop := Lt | Le | Gt | Ge | Eq | Ne.
 
+(** the operator each branch of each operator method really applies (generated table [op_dispatch]) *)
+Definition bop_code (o : bop) : Z := (match o with Add => 0 | Sub => 1 | Mul => 2 | Div => 3 end)%Z.
+Definition cop_code (o : cop) : Z := (match o with Lt => 0 | Le => 1 | Gt => 2 | Ge => 3 | Eq => 4 | Ne => 5 end)%Z.
+Definition bop_of (z : Z) (d : bop) : bop := match z with 0%Z => Add | 1%Z => Sub | 2%Z => Mul | 3%Z => Div | _ => d end.
+Definition cop_of (z : Z) (d : cop) : cop := match z with 0%Z => Lt | 1%Z => Le | 2%Z => Gt | 3%Z => Ge | 4%Z => Eq | 5%Z => Ne | _ => d end.
+(* an unknown entry (-1) falls back to an operator different from the declared one, so that the proof cannot go through *)
+Definition bop_wrong (o : bop) : bop := match o with Add => Sub | _ => Add end.
+Definition cop_wrong (o : cop) : cop := match o with Lt => Ge | _ => Lt end.
+Definition dbin (cls branch : Z) (o : bop) : bop := bop_of (op_dispatch 0%Z cls branch (bop_code o)) (bop_wrong o).
+Definition dcmp (cls branch : Z) (o : cop) : cop := cop_of (op_dispatch 1%Z cls branch (cop_code o)) (cop_wrong o).
+
 Section Generic.
 Variable A : Type.                       (* voxel values *)
 Variables (aadd asub amul adiv : A -> A -> A) (aneg : A -> A) (acmp : cop -> A -> A -> A).
@@ -26,7 +37,7 @@ with cexpr :=
 | CBin (o : bop) (c d : cexpr) | CBinP (o : bop) (c : cexpr) (p : pexpr) | CBinC (o : bop) (c : cexpr) (k : A)
 | CRBin (o : bop) (k : A) (c : cexpr)
 | CNeg (c : cexpr)
-| CCmp (o : cop) (c d : cexpr) | CCmpC (o : cop) (c : cexpr) (k : A).
+| CCmp (o : cop) (c d : cexpr) | CCmpP (o : cop) (c : cexpr) (p : pexpr) | CCmpC (o : cop) (c : cexpr) (k : A).
 
 Variable penv : nat -> S -> image.             (* leaf providers *)
 Variable cenv : nat -> image -> S -> image.    (* leaf converters *)
@@ -58,6 +69,7 @@ with den_c (e : cexpr) (x : image) (s : S) : image :=
   | CRBin o k c => mapc (fun v => bin o k v) (den_c c x s)
   | CNeg c => mapc aneg (den_c c x s)
   | CCmp o c d => zipw (acmp o) (den_c c x s) (den_c d x s)
+  | CCmpP o c p => zipw (acmp o) (den_c c x s) (den_p p s)
   | CCmpC o c k => mapc (fun v => acmp o v k) (den_c c x s)
   end.
 
@@ -74,24 +86,25 @@ Fixpoint impl_p (e : pexpr) (s : S) : image :=
   match e with
   | PLeaf i => penv i s
   | PApp c p => if compose_applies_inner_first then impl_c c (impl_p p s) s else impl_c c (impl_p p s) s
-  | PBin o a b => zipw (bin o) (impl_p a s) (impl_p b s)
-  | PBinC o a k => mapc (fun x => bin o x k) (impl_p a s)
+  | PBin o a b => zipw (bin (dbin 0%Z 0%Z o)) (impl_p a s) (impl_p b s)
+  | PBinC o a k => mapc (fun x => bin (dbin 0%Z 2%Z o) x k) (impl_p a s)
   | PRBin o k a => mapc (fun x => rbin_impl o k x) (impl_p a s)
   | PNeg a => mapc aneg (impl_p a s)
-  | PCmp o a b => zipw (acmp o) (impl_p a s) (impl_p b s)
-  | PCmpC o a k => mapc (fun x => acmp o x k) (impl_p a s)
+  | PCmp o a b => zipw (acmp (dcmp 0%Z 0%Z o)) (impl_p a s) (impl_p b s)
+  | PCmpC o a k => mapc (fun x => acmp (dcmp 0%Z 2%Z o) x k) (impl_p a s)
   end
 with impl_c (e : cexpr) (x : image) (s : S) : image :=
   match e with
   | CLeaf i => cenv i x s
   | CComp c d => if compose_applies_inner_first then impl_c c (impl_c d x s) s else impl_c d (impl_c c x s) s
-  | CBin o c d => zipw (bin o) (impl_c c x s) (impl_c d x s)
-  | CBinP o c p => zipw (bin o) (impl_c c x s) (impl_p p s)
-  | CBinC o c k => mapc (fun v => bin o v k) (impl_c c x s)
+  | CBin o c d => zipw (bin (dbin 1%Z 0%Z o)) (impl_c c x s) (impl_c d x s)
+  | CBinP o c p => zipw (bin (dbin 1%Z 1%Z o)) (impl_c c x s) (impl_p p s)
+  | CBinC o c k => mapc (fun v => bin (dbin 1%Z 2%Z o) v k) (impl_c c x s)
   | CRBin o k c => mapc (fun v => rbin_impl o k v) (impl_c c x s)
   | CNeg c => mapc aneg (impl_c c x s)
-  | CCmp o c d => zipw (acmp o) (impl_c c x s) (impl_c d x s)
-  | CCmpC o c k => mapc (fun v => acmp o v k) (impl_c c x s)
+  | CCmp o c d => zipw (acmp (dcmp 1%Z 0%Z o)) (impl_c c x s) (impl_c d x s)
+  | CCmpP o c p => zipw (acmp (dcmp 1%Z 1%Z o)) (impl_c c x s) (impl_p p s)
+  | CCmpC o c k => mapc (fun v => acmp (dcmp 1%Z 2%Z o) v k) (impl_c c x s)
   end.
 End Generic.
 
